@@ -306,6 +306,25 @@ def rule_r2(ck, prog, suffix, g_add, rd_add, full_rel, f_add):
             ok = ok and g.exit.id not in g.reachable_from(g.entry, avoid=[a])
         ck.verdict(ok, 'C11.R2', f, 'tail-advance', adv[0].n if adv else None,
                    'tail_ advanced by n exactly once on every path' if ok else 'Consume does not advance tail_ by exactly its count once on every path')
+    # who may write the counters: head_ only in Add (the publishing CAS), tail_ only in the consuming Consume(n, callback) - every
+    # other member goes through them (Clear() consumes); a member that sets tail_ / head_ itself bypasses the per-slot hand-over
+    cls_q = None
+    for f in prog.functions(suffix + '::Add'):
+        cls_q = f.cls
+    if cls_q:
+        for fld, home in (('head_', 'Add'), ('tail_', 'Consume')):
+            writers = []
+            for f in sorted([x for x in prog.funcs.values() if x.cls == cls_q and x.blocks and x.kind not in ('ctor', 'dtor')], key=lambda x: x.key):
+                for n in f.nodes:
+                    o = atomic_op(n)
+                    if o and o[0] in ('rmw', 'store') and path_str(access_path(f, n['obj'], None)) == 'this.' + fld:
+                        writers.append((f, n))
+            foreign = [(f, n) for (f, n) in writers if f.name != home or (home == 'Consume' and len(f.params) != 2)]
+            if writers:
+                ck.verdict(not foreign, 'C11.R2', (foreign[0][0] if foreign else writers[0][0]), 'only-%s-writes-%s' % (home, fld), (foreign[0][1] if foreign else writers[0][1]),
+                           '%s is written only by %s' % (fld, home) if not foreign else
+                           '%s writes %s directly: the counter moves without the per-slot hand-over (%s), so elements a producer is still publishing are skipped or freed under it' %
+                           (foreign[0][0].name, fld, 'SwapIfNull + CAS in Add' if fld == 'head_' else 'the callback taking each slot in Consume'))
     for f in prog.functions(suffix + '::size'):
         g = Graph(prog, f, inline=None, sync_lambdas=False)
         rd = reaching_defs(g)
@@ -639,7 +658,7 @@ def rule_r4(ck, prog):
 
 def run(ck, prog):
     ck.doc('C11.R1', 'ownership typestate of Add/SwapIfNull/Swap/Reset and the rvalue wrapper', 11)
-    ck.doc('C11.R2', 'guard agreement: fullness, capacity, slot index, tail advance, size', 7)
+    ck.doc('C11.R2', 'guard agreement: fullness, capacity, slot index, tail advance, size; head_ / tail_ written only by Add / Consume', 9)
     ck.doc('C11.R3', 'minimum memory orders of the queue and the spin lock', 9)
     ck.doc('C11.R5', 'queue geometry as finite tables: PeekImpl hands out exactly the queued slots in FIFO order, Take keeps the first n, ForEach visits first_ then second_', 3)
     ck.doc('C11.R4', 'spin lock: lock returns only when acquired, and returns once acquired; try_lock false on a held lock; unlock stores false', 4)
